@@ -480,6 +480,12 @@ func (l c12) Exec(env *core.Env) *core.Result {
 					world.PushBlob(ctx, st, mt, mb)
 				}
 				world.PushBlob(ctx, st, ocispec.MediaTypeImageManifest, good)
+				// referrers whose layer / blob list is present but empty, or null
+				for _, lst := range []string{`[]`, `null`} {
+					world.PushBlob(ctx, st, ocispec.MediaTypeImageManifest, bytes.Replace(good, mustJSON([]ocispec.Descriptor{l}), []byte(lst), 1))
+					legacy := fmt.Sprintf(`{"mediaType":%q,"artifactType":%q,"blobs":%s,"subject":%s}`, world.LegacyArtifactManifest, registry.ArtifactTypeNotation, lst, mustJSON(subj))
+					world.PushBlob(ctx, st, world.LegacyArtifactManifest, []byte(legacy))
+				}
 				st.SaveIndex()
 				// at-rest corruption of index.json / a blob
 				if a%3 == 0 {
@@ -557,4 +563,9 @@ func (v *c12OddVerifier) Verify(ctx context.Context, desc ocispec.Descriptor, si
 		return &notation.VerificationOutcome{}, errors.New("failure with an outcome that carries no error")
 	}
 	return nil, nil
+}
+
+func mustJSON(v any) []byte {
+	b, _ := json.Marshal(v)
+	return b
 }
